@@ -1,5 +1,6 @@
 import Brax.Model.C08
 import Brax.Lemmas.Real
+import Mathlib.Analysis.SpecialFunctions.Trigonometric.Bounds
 import Mathlib.Tactic.Ring
 import Mathlib.Tactic.FieldSimp
 import Mathlib.Tactic.LinearCombination
@@ -175,6 +176,16 @@ theorem invRotate_rotate_anchor (w : V3 R) (T jrot jr : Q4 R) (hT : Q4.normSq T 
     invRotate (rotate w (quatMul T jrot)) (quatMul T jr) = invRotate (rotate w jrot) jr := by
   rw [rotate_quatMul, invRotate_quatMul, invRotate_rotate_unit _ _ hT]
 
+theorem rotate_scale (a : V3 R) (s : R) (q : Q4 R) :
+    rotate ⟨a.x * s, a.y * s, a.z * s⟩ q
+      = ⟨(rotate a q).x * s, (rotate a q).y * s, (rotate a q).z * s⟩ := by
+  simp only [rotate, V3.dot, V3.cross, Q4.vec]; congr 1 <;> ring
+
+theorem invRotate_scale (a : V3 R) (s : R) (q : Q4 R) :
+    invRotate ⟨a.x * s, a.y * s, a.z * s⟩ q
+      = ⟨(invRotate a q).x * s, (invRotate a q).y * s, (invRotate a q).z * s⟩ := by
+  simp only [invRotate]; exact rotate_scale a s (quatInv q)
+
 /-- a root link is a child of the identity frame at rest -/
 theorem world_none_eq (jj : Tf R × Motion R) :
     Kin.world none jj = Kin.world (some (Tf.id, Motion.zero)) jj := by
@@ -232,6 +243,20 @@ end CommRing
 
 /-! ## ℝ: normalisation -/
 section Real
+
+/-- the parent frame and motion `world_to_joint` reads for a link: those of the parent link, or
+the appended identity / zero motion (`x.concatenate(zero).take(-1)`) for a root -/
+def parentOr (parent : Option (Tf ℝ × Motion ℝ)) : Tf ℝ × Motion ℝ := parent.getD (Tf.id, Motion.zero)
+
+/-- a joint transform seen from a joint frame turned by `jr` (`link.joint.rot`; the MJCF loader
+always writes the identity there) -/
+def conjJoint (jr : Q4 ℝ) (j : Tf ℝ) : Tf ℝ :=
+  ⟨invRotate j.pos jr, quatMul (quatInv jr) (quatMul j.rot jr)⟩
+
+theorem conjJoint_one (j : Tf ℝ) : conjJoint ⟨1, 0, 0, 0⟩ j = j := by
+  obtain ⟨⟨_, _, _⟩, ⟨_, _, _, _⟩⟩ := j
+  simp only [conjJoint, invRotate, rotate, quatMul, quatInv, V3.dot, V3.cross, Q4.vec]
+  congr 1 <;> congr 1 <;> ring
 
 theorem sq_le_of_abs_le {x e : ℝ} (h : |x| ≤ e) : x * x ≤ e * e := by
   have h0 := abs_nonneg x
@@ -507,6 +532,168 @@ theorem hinge_psi (a b p : V3 ℝ) (q par : ℝ) (ha : V3.dot a a = 1) (hb : V3.
     exact atan2_sin_cos q h1 h2
   · simp only [axisAngleAng]
     exact rotate_axis a q ha
+
+/-- `x_dof` on a single hinge about the unit axis `a`, the joint being turned by `q ∈ (−π, π]`:
+the coordinate is `q`, the velocity the projection of the (un-rotated) angular velocity on `a` -/
+theorem xDof_one_hinge (a p : V3 ℝ) (q : ℝ) (jd : Motion ℝ) (pidx : Int)
+    (ha : V3.dot a a = 1) (h1 : -Real.pi < q) (h2 : q ≤ Real.pi) :
+    xDof ⟨p, quatRotAxis a q⟩ jd pidx [⟨a, ⟨0, 0, 0⟩⟩]
+      = some ([q], [V3.dot a (invRotate jd.ang
+          (if pidx == -1 then quatRotAxis a q else ⟨1, 0, 0, 0⟩))]) := by
+  have hany : v3Any a = true := v3Any_of_ne a (by rw [ha]; norm_num)
+  obtain ⟨hb, hab, hc⟩ := orthogonals_spec a ha
+  have hps := hinge_psi a (orthogonals a).1 p q 1 ha hb hab h1 h2
+  simp only [xDof, linkToJointFrame, hany, if_true, hc]
+  rcases hr : axisAngleAng ⟨p, quatRotAxis a q⟩ ⟨a, (orthogonals a).1, V3.cross a (orthogonals a).1⟩ 1
+    with ⟨axis, ang⟩
+  rw [hr] at hps
+  simp only at hps
+  simp only [List.zip_cons_cons, List.zip_nil_right, List.zipWith_cons_cons, List.zipWith_nil_right,
+    List.map_cons, List.map_nil, hany, if_true, hps.1, hps.2]
+
+/-- `jcalc` of a single hinge about a unit axis -/
+theorem jcalc_one_hinge (d : DofP ℝ) (q qd : ℝ) (ha : V3.dot d.motion.ang d.motion.ang = 1)
+    (hv : d.motion.vel = ⟨0, 0, 0⟩) :
+    Kin.jcalc ⟨.one, [q], [qd], [d]⟩
+      = (⟨⟨0 * q, 0 * q, 0 * q⟩, quatRotAxis d.motion.ang q⟩,
+         ⟨⟨d.motion.ang.x * qd, d.motion.ang.y * qd, d.motion.ang.z * qd⟩, ⟨0 * qd, 0 * qd, 0 * qd⟩⟩) := by
+  simp only [Kin.jcalc, List.zip_cons_cons, List.zip_nil_right, List.map_cons, List.map_nil,
+    List.foldl_nil, Kin.jcalcDof, hv, normalize4_unit _ (quatRotAxis_normSq d.motion.ang q ha)]
+
+/-! ## ℝ: slide joints -/
+
+theorem cos_half_ge (q : ℝ) (hq : |q| ≤ 2) : 1 / 2 ≤ Real.cos (q / (1 + 1)) := by
+  have h := Real.one_sub_sq_div_two_le_cos (x := q / (1 + 1))
+  have h2 : (q / (1 + 1)) ^ 2 ≤ 1 := by
+    have := sq_le_of_abs_le hq
+    nlinarith
+  linarith
+
+/-- a slide dof contributes the identity rotation while `|q| ≤ 2` -/
+theorem slide_rot (q : ℝ) (hq : |q| ≤ 2) :
+    normalize4 (quatRotAxis (⟨0, 0, 0⟩ : V3 ℝ) q) = ⟨1, 0, 0, 0⟩ := by
+  have hc := cos_half_ge q hq
+  have hn : Q4.normSq (quatRotAxis (⟨0, 0, 0⟩ : V3 ℝ) q) = Real.cos (q / (1 + 1)) * Real.cos (q / (1 + 1)) := by
+    simp only [quatRotAxis, Q4.normSq, HasTrig.cos]; ring
+  rw [normalize4_eq _ (by rw [hn]; nlinarith), hn, Real.sqrt_mul_self (by linarith)]
+  simp only [quatRotAxis, HasTrig.cos, zero_mul, zero_div]
+  congr 1
+  exact div_self (by linarith)
+
+theorem jcalc_slides3 (d0 d1 d2 : DofP ℝ) (e0 e1 e2 : V3 ℝ) (q0 q1 q2 qd0 qd1 qd2 : ℝ)
+    (h0 : d0.motion = ⟨⟨0, 0, 0⟩, e0⟩) (h1 : d1.motion = ⟨⟨0, 0, 0⟩, e1⟩) (h2 : d2.motion = ⟨⟨0, 0, 0⟩, e2⟩)
+    (hq0 : |q0| ≤ 2) (hq1 : |q1| ≤ 2) (hq2 : |q2| ≤ 2) :
+    Kin.jcalc ⟨.three, [q0, q1, q2], [qd0, qd1, qd2], [d0, d1, d2]⟩
+      = (⟨⟨e0.x * q0 + e1.x * q1 + e2.x * q2, e0.y * q0 + e1.y * q1 + e2.y * q2,
+            e0.z * q0 + e1.z * q1 + e2.z * q2⟩, ⟨1, 0, 0, 0⟩⟩,
+         ⟨⟨0, 0, 0⟩, ⟨e0.x * qd0 + e1.x * qd1 + e2.x * qd2, e0.y * qd0 + e1.y * qd1 + e2.y * qd2,
+            e0.z * qd0 + e1.z * qd1 + e2.z * qd2⟩⟩) := by
+  simp only [Kin.jcalc, List.zip_cons_cons, List.zip_nil_right, List.map_cons, List.map_nil,
+    List.foldl_cons, List.foldl_nil, Kin.jcalcDof, Kin.jcalcAcc, h0, h1, h2, slide_rot _ hq0,
+    slide_rot _ hq1, slide_rot _ hq2]
+  simp only [Tf.doTf, rotate, quatMul, V3.dot, V3.cross, Q4.vec, V3.add_def, Motion.add_def]
+  congr 1 <;> congr 1 <;> congr 1 <;> ring
+
+
+theorem linkToJointFrame_isSome (ms : List (Motion ℝ)) (h1 : 1 ≤ ms.length) (h3 : ms.length ≤ 3) :
+    ∃ F, linkToJointFrame ms = some F := by
+  match ms, h1, h3 with
+  | [_], _, _ => exact ⟨_, rfl⟩
+  | [_, _], _, _ => exact ⟨_, rfl⟩
+  | [_, _, _], _, _ => exact ⟨_, rfl⟩
+  | _ :: _ :: _ :: _ :: _, _, h => exact absurd h (by simp)
+  | [], h, _ => exact absurd h (by simp)
+
+/-- the `where(motion.ang.any(axis=1), angles, slides)` mask picks the slide value for every dof
+whose rotational axis is zero -/
+theorem pick_slides (ms : List (Motion ℝ)) (as : List ℝ) (f : Motion ℝ → ℝ)
+    (hz : ∀ m ∈ ms, m.ang = ⟨0, 0, 0⟩) (hl : ms.length ≤ as.length) :
+    List.zipWith (fun (m : Motion ℝ) (p : ℝ × ℝ) => if v3Any m.ang then p.1 else p.2) ms
+      (as.zip (ms.map f)) = ms.map f := by
+  induction ms generalizing as with
+  | nil => simp
+  | cons m ms ih =>
+    cases as with
+    | nil => simp at hl
+    | cons a as =>
+      simp only [List.map_cons, List.zip_cons_cons, List.zipWith_cons_cons]
+      rw [hz m (by simp), v3Any_zero]
+      simp only [Bool.false_eq_true, if_false]
+      rw [ih as (fun m' hm' => hz m' (by simp [hm'])) (by simpa using hl)]
+
+/-- `x_dof` on a stack of 1–3 slide joints: coordinates and velocities are the projections of the
+joint-frame position / linear velocity on the slide axes -/
+theorem xDof_slides (j : Tf ℝ) (jd : Motion ℝ) (pidx : Int) (ms : List (Motion ℝ))
+    (hz : ∀ m ∈ ms, m.ang = ⟨0, 0, 0⟩) (h1 : 1 ≤ ms.length) (h3 : ms.length ≤ 3) :
+    xDof j jd pidx ms
+      = some (ms.map fun m => V3.dot m.vel j.pos, ms.map fun m => V3.dot m.vel jd.vel) := by
+  obtain ⟨⟨angF, velF, par⟩, hF⟩ := linkToJointFrame_isSome ms h1 h3
+  simp only [xDof, hF]
+  rw [pick_slides ms _ _ hz (by simpa using h3), pick_slides ms _ _ hz (by simpa using h3)]
+
+theorem jcalc_slides2 (d0 d1 : DofP ℝ) (e0 e1 : V3 ℝ) (q0 q1 qd0 qd1 : ℝ)
+    (h0 : d0.motion = ⟨⟨0, 0, 0⟩, e0⟩) (h1 : d1.motion = ⟨⟨0, 0, 0⟩, e1⟩)
+    (hq0 : |q0| ≤ 2) (hq1 : |q1| ≤ 2) :
+    Kin.jcalc ⟨.two, [q0, q1], [qd0, qd1], [d0, d1]⟩
+      = (⟨⟨e0.x * q0 + e1.x * q1, e0.y * q0 + e1.y * q1, e0.z * q0 + e1.z * q1⟩, ⟨1, 0, 0, 0⟩⟩,
+         ⟨⟨0, 0, 0⟩, ⟨e0.x * qd0 + e1.x * qd1, e0.y * qd0 + e1.y * qd1, e0.z * qd0 + e1.z * qd1⟩⟩) := by
+  simp only [Kin.jcalc, List.zip_cons_cons, List.zip_nil_right, List.map_cons, List.map_nil,
+    List.foldl_cons, List.foldl_nil, Kin.jcalcDof, Kin.jcalcAcc, h0, h1, slide_rot _ hq0,
+    slide_rot _ hq1]
+  simp only [Tf.doTf, rotate, quatMul, V3.dot, V3.cross, Q4.vec, V3.add_def, Motion.add_def]
+  congr 1 <;> congr 1 <;> congr 1 <;> ring
+
+theorem jcalc_slides1 (d0 : DofP ℝ) (e0 : V3 ℝ) (q0 qd0 : ℝ)
+    (h0 : d0.motion = ⟨⟨0, 0, 0⟩, e0⟩) (hq0 : |q0| ≤ 2) :
+    Kin.jcalc ⟨.one, [q0], [qd0], [d0]⟩
+      = (⟨⟨e0.x * q0, e0.y * q0, e0.z * q0⟩, ⟨1, 0, 0, 0⟩⟩,
+         ⟨⟨0, 0, 0⟩, ⟨e0.x * qd0, e0.y * qd0, e0.z * qd0⟩⟩) := by
+  simp only [Kin.jcalc, List.zip_cons_cons, List.zip_nil_right, List.map_cons, List.map_nil,
+    List.foldl_nil, Kin.jcalcDof, h0, slide_rot _ hq0, zero_mul]
+
+/-! ## ℝ: hinge followed by a slide in one stack (known finding K2) -/
+
+/-- `jcalc` of a hinge (unit axis `a`) followed by a slide (axis `e`) in one stack -/
+theorem jcalc_hinge_slide (dh ds : DofP ℝ) (a e : V3 ℝ) (q0 q1 qd0 qd1 : ℝ)
+    (hh : dh.motion = ⟨a, ⟨0, 0, 0⟩⟩) (hs : ds.motion = ⟨⟨0, 0, 0⟩, e⟩)
+    (ha : V3.dot a a = 1) (hq1 : |q1| ≤ 2) :
+    (Kin.jcalc ⟨.two, [q0, q1], [qd0, qd1], [dh, ds]⟩).1
+      = ⟨rotate ⟨e.x * q1, e.y * q1, e.z * q1⟩ (quatRotAxis a q0), quatRotAxis a q0⟩ := by
+  simp only [Kin.jcalc, List.zip_cons_cons, List.zip_nil_right, List.map_cons, List.map_nil,
+    List.foldl_cons, List.foldl_nil, Kin.jcalcDof, Kin.jcalcAcc, hh, hs, slide_rot _ hq1,
+    normalize4_unit _ (quatRotAxis_normSq a q0 ha)]
+  simp only [Tf.doTf, V3.add_def, zero_mul, zero_add]
+  congr 1
+  generalize quatRotAxis a q0 = r
+  obtain ⟨_, _, _, _⟩ := r
+  simp only [quatMul]; congr 1 <;> ring
+
+/-- the slide coordinate `x_dof` reports for a (hinge, slide) stack is the projection of `j.pos` on
+the slide axis -/
+theorem xDof_hinge_slide_q1 (j : Tf ℝ) (jd : Motion ℝ) (pidx : Int) (a e : V3 ℝ) (qq qd' : List ℝ)
+    (h : xDof j jd pidx [⟨a, ⟨0, 0, 0⟩⟩, ⟨⟨0, 0, 0⟩, e⟩] = some (qq, qd')) :
+    qq[1]? = some (V3.dot e j.pos) := by
+  simp only [xDof, linkToJointFrame, Option.some.injEq, Prod.mk.injEq] at h
+  rw [← h.1]
+  simp only [List.zip_cons_cons, List.zip_nil_right, List.zipWith_cons_cons, List.zipWith_nil_right,
+    List.map_cons, List.map_nil, v3Any_zero, Bool.false_eq_true, if_false]
+  rfl
+
+/-! ## concrete data for the non-vacuity examples -/
+
+/-- a link with an offset, a rotated frame (unit quaternion `(3/5, 0, 4/5, 0)`) and an anchor away
+from the link origin -/
+noncomputable def exLk : LinkP ℝ :=
+  { tf := ⟨⟨1, 2, 3⟩, ⟨3 / 5, 0, 4 / 5, 0⟩⟩, joint := ⟨⟨1 / 2, 0, -1 / 3⟩, ⟨1, 0, 0, 0⟩⟩,
+    inertia := ⟨⟨⟨0, 0, 0⟩, ⟨1, 0, 0, 0⟩⟩, ⟨⟨1, 0, 0⟩, ⟨0, 1, 0⟩, ⟨0, 0, 1⟩⟩, 1⟩,
+    invweight := 1, cStiffness := 0, cVelDamping := 0, cLimitStiffness := 0, cAngDamping := 0 }
+
+/-- a parent link turned by the unit quaternion `(0, 1, 0, 0)`, translating and rotating -/
+noncomputable def exParent : Tf ℝ × Motion ℝ := (⟨⟨-1, 0, 2⟩, ⟨0, 1, 0, 0⟩⟩, ⟨⟨1, -2, 1 / 2⟩, ⟨3, 0, 1⟩⟩)
+
+noncomputable def exDof (ang vel : V3 ℝ) : DofP ℝ :=
+  { motion := ⟨ang, vel⟩, armature := 0, stiffness := 0, damping := 0, lo := none, hi := none,
+    invweight := 1 }
 
 end Real
 end Brax.Inv
